@@ -172,11 +172,14 @@ def locate_region(src, fn_path, start_anchor, end_anchor, include_end=False):
     a = body.find(start_anchor)
     if a < 0 or body.find(start_anchor, a + 1) >= 0:
         raise ExtractError("lost anchor: region start %r in %s (missing or ambiguous)" % (start_anchor, fn_path))
-    b = body.find(end_anchor, a + len(start_anchor))
-    if b < 0:
-        raise ExtractError("lost anchor: region end %r in %s" % (end_anchor, fn_path))
-    if include_end:
-        b += len(end_anchor)
+    if end_anchor is None:
+        b = body.rstrip().rfind("}")      # region runs to the end of the function body
+    else:
+        b = body.find(end_anchor, a + len(start_anchor))
+        if b < 0:
+            raise ExtractError("lost anchor: region end %r in %s" % (end_anchor, fn_path))
+        if include_end:
+            b += len(end_anchor)
     text = body[a:b]
     # the region must be delimiter-balanced
     toks = lex.code_tokens(text)
@@ -560,7 +563,7 @@ def build_item(repo, item, log):
         where = "%s:%d (closure #%d of %s)" % (item["file"], c["line"], item["index"], item["within"])
         name = name or re.match(r"fn\s+(\w+)", sig).group(1)
     elif kind == "region":
-        r = locate_region(src, item["within"], item["start"], item["end"], item.get("include_end", False))
+        r = locate_region(src, item["within"], item["start"], item.get("end"), item.get("include_end", False))
         sig = item["sig"]
         body = "{\n" + item.get("pre", "") + r["text"] + item.get("post", "") + "\n}"
         where = "%s:%d-%d (region of %s)" % (item["file"], r["line"], r["end_line"], item["within"])
